@@ -195,13 +195,28 @@ def other_input(inp, S, snode, family):
     return type(inp)(inp.object_tree, inp.species_lca, los, dict(inp.costs), dict(inp.leaf_syntenies))
 
 
-def solve(algo, family, pres, twice=False, after_other=False):
+def reordered_in_place(inp, family):
+    """the children of both roots are swapped IN PLACE on the live ete3 trees, then the input is rebuilt on the same node
+    objects with a new LowestCommonAncestor (as the class documents for an edited tree)"""
+    from superrec2.utils.trees import LowestCommonAncestor
+    inp.object_tree.swap_children()
+    inp.species_lca.tree.swap_children()
+    lca = LowestCommonAncestor(inp.species_lca.tree)
+    if family == "plain":
+        return type(inp)(inp.object_tree, lca, dict(inp.leaf_object_species), dict(inp.costs))
+    return type(inp)(inp.object_tree, lca, dict(inp.leaf_object_species), dict(inp.costs), dict(inp.leaf_syntenies))
+
+
+def solve(algo, family, pres, twice=False, after_other=False, inplace=False):
     """-> (min cost or None, list of keys, error)"""
     try:
         inp, O, S, olab, slab, onode, snode = pres.build(family)
         fn = reconcile_thl if algo == "thl" else L.SOLVERS[algo][0]
         if after_other:
             list(fn(other_input(inp, S, snode, family), A.POLICY["ALL"]))   # state carried over from another input
+        if inplace:
+            list(fn(inp, A.POLICY["ALL"]))
+            inp = reordered_in_place(inp, family)
         outs = list(fn(inp, A.POLICY["ALL"]))
         if twice:
             outs = list(fn(inp, A.POLICY["ALL"]))   # same input object solved again
@@ -233,6 +248,8 @@ def transformations(onest, snest, costs, family):
     # another input solved first on the same tree objects and the same LowestCommonAncestor structure
     out.append(("after_other_input", "after", {}))
     out.append(("after_other_input_unnamed", "after", {"naming": "unnamed"}))
+    # the same tree objects reordered in place after a first solve, a new LCA structure built on them, solved again
+    out.append(("reorder_in_place", "inplace", {}))
     for k in (2, 3):
         out.append((f"scale_x{k}", "scale", {"costs": tuple(c * k if c != INF else INF for c in costs), "k": k}))
     for i, nm in enumerate(("spe", "dup", "hgt", "floss", "sloss")):
@@ -263,13 +280,13 @@ def check_input(algo, family, osh, ssh, leafmap, leafsyn, costs, only=None):
         k = kw.pop("k", None)
         p = Pres(kw.get("onest", onest), kw.get("snest", snest), leafmap, leafsyn, kw.get("costs", costs),
                  kw.get("naming", "default"), kw.get("fam", "id"))
-        c1, k1, err = solve(algo, family, p, twice=(kind == "twice"), after_other=(kind == "after"))
+        c1, k1, err = solve(algo, family, p, twice=(kind == "twice"), after_other=(kind == "after"), inplace=(kind == "inplace"))
         runs += 1
         if err:
             bad.append((name, f"{name}: {err}"))
             continue
         s1 = set(k1)
-        if kind in ("same", "twice", "after"):
+        if kind in ("same", "twice", "after", "inplace"):
             if c1 != c0:
                 bad.append((name, f"{name}: minimum {c0} -> {c1}"))
             elif s1 != s0 or len(k1) != len(s1):
